@@ -1,26 +1,29 @@
 package flags
 
 func levenshtein(s string, t string) int {
-	if len(s) == 0 {
-		return len(t)
+	a := []rune(s)
+	b := []rune(t)
+
+	if len(a) == 0 {
+		return len(b)
 	}
 
-	if len(t) == 0 {
-		return len(s)
+	if len(b) == 0 {
+		return len(a)
 	}
 
-	dists := make([][]int, len(s)+1)
+	dists := make([][]int, len(a)+1)
 	for i := range dists {
-		dists[i] = make([]int, len(t)+1)
+		dists[i] = make([]int, len(b)+1)
 		dists[i][0] = i
 	}
 
-	for j := range t {
+	for j := range dists[0] {
 		dists[0][j] = j
 	}
 
-	for i, sc := range s {
-		for j, tc := range t {
+	for i, sc := range a {
+		for j, tc := range b {
 			if sc == tc {
 				dists[i+1][j+1] = dists[i][j]
 			} else {
@@ -35,7 +38,7 @@ func levenshtein(s string, t string) int {
 		}
 	}
 
-	return dists[len(s)][len(t)]
+	return dists[len(a)][len(b)]
 }
 
 func closestChoice(cmd string, choices []string) (string, int) {
